@@ -432,6 +432,9 @@ class FSM(object):
         elif self.state in (bgp_cons.ST_CONNECT, bgp_cons.ST_ACTIVE):
             # State Connect, event 24
             self._error_close()
+        elif self.state == bgp_cons.ST_ESTABLISHED:
+            # State Established, event 24
+            self._error_close()
 
     def notification_received(self, error, suberror):
 
